@@ -5,6 +5,7 @@ through every filter-taking entry point, each on its own twin copy of the state,
 must agree.  Along the history the reported counts are checked against the observable change.
 The history itself is run against the Lean model as well (outcomes = counts, and states).
 """
+import collections
 import copy
 import sys
 
@@ -20,8 +21,10 @@ from histcheck import freeze, state_of
 ID = 'C10'
 SALT = 1010
 RULE = ('history = 2-20 generated operations building a state (documents AND indexes: unique, '
-        'sparse, partial, compound), then one generated filter (over dates, embedded-document '
-        '_ids, array paths, operators, and plain values for every key of an index the history '
+        'sparse, partial, compound; _ids: scalars, embedded documents, and datetimes - bare or '
+        'inside an embedded-document _id - spelled with microseconds below the millisecond or '
+        'with a UTC offset, which storing rewrites), then one generated filter (over dates, '
+        'embedded-document _ids, array paths, operators, and plain values for every key of an index the history '
         'created) is evaluated through find, count_documents, update_many/update_one '
         'matched_count, delete_many/delete_one deleted_count, aggregate $match, distinct and '
         'find_one, each on a twin copy of the state that carries the same indexes, and all must '
@@ -40,6 +43,7 @@ ASSUMPTIONS = [
     'TTL-free histories',
 ]
 
+REACH = collections.Counter()     # how often the oracle met the inputs a clause is about
 known_labels = {e['id'] for e in common.load_known(ID) if e.get('status') == 'known'}
 
 
@@ -247,7 +251,7 @@ def histgen(rng, oids):
     hg = Gen10(rng, oids, weights=dict(
         insert_one=22, insert_many=10, update_one=8, update_many=8, replace_one=4,
         delete_one=5, delete_many=5, find=6, count=8, distinct=3, create_index=5,
-        drop_index=0, drop_indexes=0, drop=1), ttl=False)
+        drop_index=0, drop_indexes=0, drop=1), ttl=False, date_ids='wide')
     hg.fg.elem = True
     return hg
 
@@ -266,11 +270,37 @@ def oracle(history, steps):
             if len(prev_docs) - len(docs) != st.out[1]:
                 fails.append((i, 'deleted-count', '%s reported %r but the size went %d -> %d'
                               % (k, st.out[1], len(prev_docs), len(docs))))
+        # the _ids the collection holds now and did not hold before the step, AS STORED (a datetime
+        # in an _id is stored in UTC at millisecond precision, whatever the caller wrote)
+        before = {freeze(d.get('_id')) for d in prev_docs}
+        new = [freeze(d.get('_id')) for d in docs if freeze(d.get('_id')) not in before]
+        if k in ('insert_one', 'insert_many') and ok:
+            given = [d.get('_id') for d in (st.op[1] if k == 'insert_many' else [st.op[1]])
+                     if isinstance(d, dict) and '_id' in d]
+            stored = {repr(x) for x in new}
+            REACH['inserted _ids that storing rewrites'] += sum(
+                1 for g in given if repr(freeze(histcheck.canon_value(g, st.oids))) not in stored)
+            REACH['inserted _ids given by the caller'] += len(given)
         if k == 'insert_many' and ok:
-            before = {freeze(d.get('_id')) for d in prev_docs}
-            new = [freeze(d.get('_id')) for d in docs if freeze(d.get('_id')) not in before]
             if [freeze(x) for x in st.out[1]] != new:
                 fails.append((i, 'inserted-ids', 'inserted_ids %r but new _ids %r' % (st.out[1], new)))
+        if k == 'insert_one' and ok:
+            if [freeze(st.out[1])] != new:
+                fails.append((i, 'inserted-ids', 'inserted_id %r but new _ids %r' % (st.out[1], new)))
+        if k == 'insert_many' and st.out[0] == 'err' and st.out[1] == 'BulkWriteError' and \
+                isinstance(st.out[2], dict) and 'nInserted' in st.out[2]:
+            if st.out[2]['nInserted'] != len(docs) - len(prev_docs) or \
+                    len(new) != len(docs) - len(prev_docs):
+                fails.append((i, 'inserted-count', 'the refused insert_many reported nInserted %r, '
+                              'the size went %d -> %d and the new _ids are %r'
+                              % (st.out[2]['nInserted'], len(prev_docs), len(docs), new)))
+        if k in ('update_one', 'update_many', 'replace_one') and ok and isinstance(st.out[1], dict) \
+                and 'upserted' in st.out[1]:
+            up = st.out[1]['upserted']
+            # upserted_id = the one new _id (None: nothing was inserted, or the new _id is null)
+            if new != [freeze(up)] and not (up is None and new == []):
+                fails.append((i, 'upserted-id', '%s reported upserted_id %r but new _ids %r'
+                              % (k, up, new)))
         if k in ('update_one', 'update_many', 'replace_one') and ok and isinstance(st.out[1], dict):
             changed = 0
             strict = 0
@@ -357,4 +387,10 @@ def nontrivial(history, steps):
     return False
 
 
-run, replay, replay_finding = histcheck.module_api(sys.modules[__name__], 1200, 30000, fixed=True)
+_run, replay, replay_finding = histcheck.module_api(sys.modules[__name__], 1200, 30000, fixed=True)
+
+
+def run(ctx, proof, driver_ok):
+    cov = _run(ctx, proof, driver_ok)
+    cov['reach'] = dict(REACH)
+    return cov
